@@ -104,6 +104,8 @@ class AbsStr(AbstractValue):
         return Unknown('strcmp')
 
     def abs_contains(self, interp, item):
+        if isinstance(item, str) and len(item) == 1 and _implied_by_match(interp, self.prov, item):
+            return True
         return Cond(('contains', _freeze(item), self.prov))
 
     def abs_in(self, interp, container):
@@ -119,7 +121,9 @@ class AbsStr(AbstractValue):
 
     def abs_binop(self, interp, op, other, reflected):
         if op is ast.Add:
-            o = other.prov if isinstance(other, AbsStr) else other
+            if is_abstract(other) and not isinstance(other, AbsStr) and hasattr(other, 'abs_binop') and not reflected:
+                return NotImplemented     # let template-domain values build a skeleton around this string
+            o = _freeze(other)
             return AbsStr(prov=('cat', o, self.prov) if reflected else ('cat', self.prov, o))
         if op is ast.Mod:
             return Unknown('%')
@@ -143,6 +147,28 @@ class AbsStr(AbstractValue):
         if isinstance(c, ExternalRef):
             return c.dotted == 'builtins.str'
         return False
+
+
+_mand_cache = {}
+
+
+def _implied_by_match(interp, prov, ch):
+    """A character that every match of R must contain occurs in a string that R has matched
+    (fullmatch/match decided true on this path)."""
+    for k, v in interp.oracle.memo.items():
+        if v is True and isinstance(k, tuple) and len(k) == 2 and k[0] == 'cond' and isinstance(k[1], tuple) \
+                and k[1] and k[1][0] == 'match' and k[1][1] in ('fullmatch', 'match', 'search') and k[1][3] == prov:
+            pattern = k[1][2]
+            if pattern not in _mand_cache:
+                from . import rx
+                from .rules.c18 import mandatory_chars
+                try:
+                    _mand_cache[pattern] = mandatory_chars(rx.parse(pattern))
+                except Exception:
+                    _mand_cache[pattern] = set()
+            if ch in _mand_cache[pattern]:
+                return True
+    return False
 
 
 class _AbsBound:
